@@ -39,6 +39,7 @@ type Action struct {
 	Lz      uint64   `json:"lz,omitempty"`
 	Nonce   uint64   `json:"nonce,omitempty"`
 	N       int      `json:"n,omitempty"`
+	Hostile bool     `json:"hostile,omitempty"` // drawn in a hostile/extreme variant (statistics only)
 }
 
 func (a Action) String() string {
